@@ -28,7 +28,7 @@ FUNCTIONS = ['OperatorDict.__getitem__ (cache keyed by ordered key tuple)', 'do_
              'lambdify / func_builder / KingdonPrinter._print_unpacking', 'MultiVector.asfullmv', 'MultiVector.fromkeysvalues',
              'all 14 binary and 15 unary codegen_* functions', 'the generated functions of base and variant patterns']
 ASSUMPTIONS = ['coefficients are reals; explicit zeros are the integer 0', 'inv/div/outertan: recorded denominators non-zero; sqrt/normalized: Study number with positive scalar part']
-BOUNDS = {'quick': '23 further public methods (duals by kind, norm, normalized, powers of either sign, grade selection, map, filter, dense forms, number on either side of / and -) under all variants; (p,q,r) d<=3; every operator x base patterns (d<=2 subsets, d=3 random sparse) x {permutations, random paddings, dense canonical, dense binary, asfullmv both}; wrapper algebras with a second pass; compiled registered functions on storage variants',
+BOUNDS = {'quick': '23 further public methods (duals by kind, norm, normalized, powers of either sign, grade selection, map, filter, dense forms, number on either side of / and -) under all variants; (p,q,r) d<=3; every operator x base patterns (d<=2 subsets, d=3 random sparse) x {permutations, random paddings, dense canonical, dense binary, asfullmv both}; wrapper algebras with a second pass; compiled registered functions on storage variants; d=6 inverse / division with the scalar part of the operand stored first / second / last / padded',
           'thorough': 'all (p,q,r) d=3, d=4 sparse bases, more bases per operator'}
 OUTSIDE = ['d > 4', 'key tuples with repeated blades', 'floating-point rounding']
 OPTS = {'rlimit': 300_000_000, 'canary_every': 12}
